@@ -1154,6 +1154,7 @@ main(int argc, char **argv) {
       {.tag = "d3full", .mind = 1, .maxd = 3, .cmask = 3, .rmask = 3, .qmask = 3, .kinds = ALLK, .modes = 7, .rotate = 1, .bound = 1},
       {.tag = "d2b2", .mind = 1, .maxd = 2, .cmask = 3, .rmask = 3, .qmask = 3, .kinds = ALLK, .modes = 7, .bound = 2, .qcanon = 1},
       {.tag = "d4", .mind = 4, .maxd = 4, .cmask = 3, .rmask = 1, .qmask = 1, .kinds = ALLK, .modes = 3, .bound = 1},
+      {.tag = "d4r", .mind = 4, .maxd = 4, .cmask = 1, .rmask = 3, .qmask = 1, .kinds = ALLK, .modes = 7, .rotate = 1, .bound = 1},
       {.tag = "d5", .mind = 5, .maxd = 5, .cmask = 1, .rmask = 1, .qmask = 1, .kinds = ALLK, .modes = 7, .rotate = 1, .bound = 1},
       {.tag = "d5b0", .mind = 4, .maxd = 5, .cmask = 1, .rmask = 1, .qmask = 3, .kinds = ALLK, .modes = 7, .bound = 0, .qcanon = 1},
       {.tag = "lc", .mind = 1, .maxd = 3, .cmask = 3, .rmask = 3, .qmask = 1, .kinds = ALLK, .modes = 7, .rotate = 1, .lc = 1, .bound = 1},
